@@ -104,10 +104,11 @@ class _MemoryFile(io.RawIOBase):
 
     def flush(self):
         # type: () -> None
-        pass
+        self._checkClosed()
 
     def next(self):
         # type: () -> bytes
+        self._checkClosed()
         if not self._mode.reading:
             raise IOError("File not open for reading")
         with self._seek_lock():
@@ -118,6 +119,7 @@ class _MemoryFile(io.RawIOBase):
 
     def readline(self, size=None):
         # type: (Optional[int]) -> bytes
+        self._checkClosed()
         if not self._mode.reading:
             raise IOError("File not open for reading")
         with self._seek_lock():
@@ -133,6 +135,7 @@ class _MemoryFile(io.RawIOBase):
 
     def read(self, size=None):
         # type: (Optional[int]) -> bytes
+        self._checkClosed()
         if not self._mode.reading:
             raise IOError("File not open for reading")
         with self._seek_lock():
@@ -145,6 +148,7 @@ class _MemoryFile(io.RawIOBase):
 
     def readinto(self, buffer):
         # type (bytearray) -> Optional[int]
+        self._checkClosed()
         if not self._mode.reading:
             raise IOError("File not open for reading")
         with self._seek_lock():
@@ -153,6 +157,7 @@ class _MemoryFile(io.RawIOBase):
 
     def readlines(self, hint=-1):
         # type: (int) -> List[bytes]
+        self._checkClosed()
         if not self._mode.reading:
             raise IOError("File not open for reading")
         with self._seek_lock():
@@ -165,6 +170,7 @@ class _MemoryFile(io.RawIOBase):
 
     def seek(self, pos, whence=Seek.set):
         # type: (int, SupportsInt) -> int
+        self._checkClosed()
         # NOTE(@althonos): allows passing both Seek.set and os.SEEK_SET
         with self._seek_lock():
             self.on_access()
@@ -178,10 +184,12 @@ class _MemoryFile(io.RawIOBase):
 
     def tell(self):
         # type: () -> int
+        self._checkClosed()
         return self.pos
 
     def truncate(self, size=None):
         # type: (Optional[int]) -> int
+        self._checkClosed()
         if not self._mode.writing:
             raise IOError("File not open for writing")
         with self._seek_lock():
@@ -204,6 +212,7 @@ class _MemoryFile(io.RawIOBase):
 
     def write(self, data):
         # type: (Union[bytes, memoryview, array.array[Any], mmap.mmap]) -> int
+        self._checkClosed()
         if not self._mode.writing:
             raise IOError("File not open for writing")
         with self._seek_lock():
@@ -215,6 +224,7 @@ class _MemoryFile(io.RawIOBase):
 
     def writelines(self, sequence):
         # type: (Iterable[Union[bytes, memoryview, array.array[Any], mmap.mmap]]) -> None  # noqa: E501
+        self._checkClosed()
         if not self._mode.writing:
             raise IOError("File not open for writing")
         with self._seek_lock():
